@@ -360,6 +360,40 @@ def main():
                             ck.note("%s: values equal, array comes back with "
                                     "shape %r instead of %r" % (
                                         key, got.shape, d.shape))
+    # density-matrix evolutions have their own text layout (time,
+    # populations, real and imaginary parts of the upper triangle)
+    from quantarhei.qm.propagators.dmevolution import (
+        DensityMatrixEvolution, ReducedDensityMatrixEvolution)
+    for cls in (DensityMatrixEvolution, ReducedDensityMatrixEvolution):
+        for ext in (".dat", ".txt", ".npy", ".npz"):
+            for n in ((2, 3, 4, 5, 6) if ck.thorough else (2, 4, 5)):
+                nt = 6
+                B = rng.randn(nt, n, n) + 1j * rng.randn(nt, n, n)
+                d = B + numpy.conj(numpy.transpose(B, (0, 2, 1)))
+                ax = qr.TimeAxis(0.0, nt, 2.5)
+                rp = dict(kind="export-evolution", cls=cls.__name__, fmt=ext,
+                          dim=n)
+                key = "export:%s:%s:dim%s" % (cls.__name__, ext,
+                                              "<=3" if n <= 3 else ">=4")
+                fn = os.path.join(tmp, "ev" + ext)
+                with ck.guarded("export-round-trip", key, rp, rp):
+                    rho_i = qr.ReducedDensityMatrix(data=d[0].copy())
+                    src = cls(ax, rho_i)
+                    src.data[:, :, :] = d
+                    with contextlib.redirect_stdout(io.StringIO()):
+                        src.save_data(fn)
+                        dst = cls(qr.TimeAxis(0.0, nt, 2.5))
+                        dst.load_data(fn)
+                    got = numpy.array(dst.data)
+                    ok = got.shape == d.shape and \
+                        float(numpy.abs(got - d).max()) < 1e-12
+                    ck.case("export-round-trip", (cls.__name__, ext, n),
+                            sample=dict(rp, ok=bool(ok)))
+                    if not ok:
+                        ck.violation("export-round-trip", key, dict(
+                            rp, got_shape=list(got.shape),
+                            err=float(numpy.abs(got - d).max())
+                            if got.shape == d.shape else None), rp)
     shutil.rmtree(tmp, ignore_errors=True)
     ck.assume("observable data are compared in a neutral context (no basis "
               "context, internal units) at 1e-10; objects saved inside a "
